@@ -219,6 +219,49 @@ def gen_pair_general(rng, gi, exact_rot=True):
     return gd, gs, gen_spec(rng, NYd, NXd, allow_zero=False), gen_spec(rng, NYs, NXs)
 
 
+REGIONAL = [
+    # (crs, safe x range, safe y range): boxes well inside the valid area of regional projected CRSs
+    ("epsg:32633", (200000, 800000), (1000000, 8000000)),          # UTM 33N
+    ("epsg:3577", (-2200000, 2200000), (-5000000, -1000000)),      # Australian Albers
+    ("epsg:3857", (-15000000, 15000000), (-10000000, 12000000)),   # Web Mercator up to ~70 degrees
+    ("epsg:32755", (200000, 800000), (2000000, 9500000)),          # UTM 55S
+]
+
+
+def gen_pair_global(rng):
+    """whole-globe (or much larger than the destination CRS's valid area) EPSG:4326 raster paired with a regional
+    projected raster that lies inside the valid area of its CRS; returned as (regional, global, tiles, tiles)"""
+    crs, xr, yr = rng.choice(REGIONAL)
+    NYd, NXd = rng.randint(6, 40), rng.randint(6, 40)
+    frac = rng.choice([0.02, 0.1, 0.3, 0.6, 1.0])
+    W, H = (xr[1] - xr[0]) * frac, (yr[1] - yr[0]) * frac
+    px = float(max(1, int(min(W / NXd, H / NYd))))
+    x0 = float(int(rng.uniform(xr[0], xr[1] - px * NXd)))
+    y1 = float(int(rng.uniform(yr[0] + px * NYd, yr[1])))
+    sxd, syd = rng.choice([(1, -1), (1, -1), (1, -1), (-1, -1), (1, 1)])
+    ox = x0 if sxd > 0 else x0 + px * NXd
+    oy = y1 if syd < 0 else y1 - px * NYd
+    gd = (NYd, NXd, crs, sxd * px, 0.0, ox, 0.0, syd * px, oy)
+    r = rng.choice([0.5, 1.0, 2.0])
+    kind = rng.random()
+    if kind < 0.6:      # whole globe
+        lon0, lon1, lat0, lat1 = -180, 180, -90, 90
+    elif kind < 0.8:    # a hemisphere reaching both poles
+        lon0 = rng.choice([-180, -90, 0])
+        lon0, lon1, lat0, lat1 = lon0, lon0 + 180, -90, 90
+    else:               # whole globe short of the poles
+        lon0, lon1, lat0, lat1 = -180, 180, -80, 84
+    NYs, NXs = int((lat1 - lat0) / r), int((lon1 - lon0) / r)
+    if rng.random() < 0.8:
+        gs = (NYs, NXs, "epsg:4326", r, 0.0, float(lon0), 0.0, -r, float(lat1))
+    else:
+        gs = (NYs, NXs, "epsg:4326", r, 0.0, float(lon0), 0.0, r, float(lat0))
+    t = rng.choice([30, 45, 60, 90])
+    sd = ("reg", rng.randint(3, NYd), rng.randint(3, NXd))
+    ss = ("reg", max(1, int(t / r)), max(1, int(t / r)))
+    return gd, gs, sd, ss
+
+
 def exact_st(gd, gs):
     """exact pixel-to-pixel map src_pix = A0 * dst_pix for two axis-aligned grids"""
     _, _, _, ad, _, cd, _, ed, fd = gd
@@ -571,8 +614,94 @@ def p_general(gd, gs, sd, ss):
     return True, f"{len(edges)} edges"
 
 
+def _tile_polys_lonlat(g, gbt):
+    """tile footprints from the affine and the tile pixel ranges, densified and moved to lon/lat with pyproj"""
+    from pyproj import Transformer
+    from shapely.geometry import Polygon
+    from shapely.ops import transform as shp_transform
+    from affine import Affine
+    A = Affine(*g[3:9])
+    tr = None if g[2] == "epsg:4326" else Transformer.from_crs(g[2], "epsg:4326", always_xy=True).transform
+    out = {}
+    for idx in all_idx(gbt):
+        ry, rx = gbt.roi[idx]
+        if ry.stop <= ry.start or rx.stop <= rx.start:
+            continue
+        p = Polygon([A * q for q in [(rx.start, ry.start), (rx.stop, ry.start), (rx.stop, ry.stop), (rx.start, ry.stop)]])
+        npix = (ry.stop - ry.start) * (rx.stop - rx.start)
+        if tr is not None:
+            p = shp_transform(tr, p.segmentize(max(p.length / 400, 1e-9)))
+        if not p.is_valid:
+            continue
+        out[idx] = (p, p.area / npix)
+    return out
+
+
+CHORD_KEY = "c12:crossref-chord"
+
+
+def _chord_class(gd, dst, d, gs, src, s_, frac):
+    """Is a missed pair explained by the known open finding?  GeoboxTiles.tiles() moves the destination tile's extent
+    to the source CRS through its four corners only; for a destination tile that is very large compared with the
+    source raster the straight chords cut off area of the true (curved) footprint.  A miss belongs to that class
+    when the source tile does not overlap the four-corner image of the destination tile (by half of what the true
+    footprint overlap would imply)."""
+    from affine import Affine
+    from pyproj import Transformer
+    from shapely.geometry import Polygon
+    import math
+
+    def rect(g, t, idx):
+        A = Affine(*g[3:9])
+        ry, rx = t.roi[idx]
+        return [A * q for q in [(rx.start, ry.start), (rx.stop, ry.start), (rx.stop, ry.stop), (rx.start, ry.stop)]]
+    pts = rect(gd, dst, d)
+    if gd[2] != gs[2]:
+        tr = Transformer.from_crs(gd[2], gs[2], always_xy=True).transform
+        pts = [tr(*q) for q in pts]
+    if not all(math.isfinite(v) for q in pts for v in q):
+        return True
+    cp, tp = Polygon(pts), Polygon(rect(gs, src, s_))
+    if not cp.is_valid:
+        return True
+    return cp.intersection(tp).area < 0.5 * frac * tp.area
+
+
+def p_crossref(gd, gs, sd, ss):
+    """different-CRS pair (testing of the oracle composition): never an error; every source tile whose footprint
+    overlaps a destination tile's footprint by more than a sliver (4 pixels of the finer grid) is listed.
+    Reference: tile footprints densified, moved to lon/lat with pyproj, intersected with shapely.
+    Misses of the class of the open finding (see _chord_class) are reported under their own key."""
+    dst, src = mk_gbt(gd, sd), mk_gbt(gs, ss)
+    try:
+        graph = dst.grid_intersect(src)
+    except Exception as e:
+        return False, f"raised {type(e).__name__}: {str(e)[:200]}"
+    fd, fs = _tile_polys_lonlat(gd, dst), _tile_polys_lonlat(gs, src)
+    n = 0
+    chord = None
+    for d, (dp, dpx) in fd.items():
+        got = set(map(tuple, graph.get(d, [])))
+        for s_, (sp, spx) in fs.items():
+            if not dp.intersects(sp):
+                continue
+            a = dp.intersection(sp).area
+            if a > 4 * min(dpx, spx):
+                n += 1
+                if s_ not in got:
+                    msg = (f"destination tile {d} and source tile {s_} overlap by {a / min(dpx, spx):.1f} pixels of the finer grid, "
+                           f"{100 * a / sp.area:.0f}% of the source tile (lon/lat reference), but the source tile is not listed: {sorted(got)[:8]}")
+                    if _chord_class(gd, dst, d, gs, src, s_, a / sp.area):
+                        chord = chord or msg
+                    else:
+                        return False, msg
+    if chord:
+        return False, "[chord] " + chord
+    return True, f"{n} overlapping tile pairs, all listed"
+
+
 PREDICATES = {"locate": p_locate, "pixquery": p_pixquery, "geomquery": p_geomquery, "linear": p_linear,
-              "general": p_general}
+              "general": p_general, "crossref": p_crossref}
 
 
 def search(out, tier):
@@ -587,9 +716,10 @@ def search(out, tier):
             ok, detail = False, f"predicate raised {type(e).__name__}: {e}"
         out.count("predicate:" + name)
         out.case(("pred", name, enc(args)), True)
-        if not ok and name not in found:
-            found[name] = True
-            out.violation(f"c12:{name}", f"{name}{enc(args)}: {detail}",
+        key = CHORD_KEY if (name == "crossref" and detail.startswith("[chord]")) else f"c12:{name}"
+        if not ok and key not in found:
+            found[key] = True
+            out.violation(key, f"{name}{enc(args)}: {detail}",
                           {"predicate": name, "args": enc(list(args)), "observed": detail})
 
     for rp in core.corpus(ID):
@@ -629,6 +759,16 @@ def search(out, tier):
     for gi in range(50 if not big else 300):
         gd, gs, sd, ss = gen_pair_general(rng, gi, exact_rot=False)
         run("general", gd, gs, sd, ss)
+    # whole-globe / larger-than-valid-area EPSG:4326 rasters against regional projected rasters, both directions,
+    # and the cross-CRS pairs above, against the lon/lat footprint reference
+    for gi in range(10 if not big else 80):
+        gd, gs, sd, ss = gen_pair_global(rng)
+        run("crossref", gd, gs, sd, ss)
+        if gi % 3 == 0:
+            run("crossref", gs, gd, ss, sd)
+    for gi in range(10 if not big else 80):
+        gd, gs, sd, ss = gen_pair_general(rng, 1, exact_rot=False)
+        run("crossref", gd, gs, sd, ss)
 
 
 # ---------------------------------------------------------------- entry points
@@ -640,7 +780,8 @@ def run(out, tier, scratch):
                 "with CRS, rotated rasters) with the pyproj/shapely answers replayed as oracle tables; linear dependency graphs of "
                 "same-CRS pairs (aligned, shifted by 1/2, 1/4, 3/8 and by amounts inside/outside the 1e-3 snapping tolerance, scaled "
                 "1/4..5, mirrored, touching, disjoint) fed with the affine returned by the real _check_linear; general-path graphs "
-                "(rotated and EPSG:4326 sources incl. disjoint ones) with oracle tables.  non-trivial = successful call with a "
+                "(rotated and EPSG:4326 sources incl. disjoint ones) with oracle tables; search only (predicate crossref): whole-globe / hemisphere EPSG:4326 rasters against regional rasters "
+                "inside the valid area of UTM 33N, UTM 55S, Australian Albers and Web Mercator, both directions.  non-trivial = successful call with a "
                 "non-default result; distinct = distinct canonical (operation, arguments).  search: brute-force exact references")
     out.assumptions += [
         "exact-rational model of binary64 (linear pairs are generated so that the pixel-to-pixel affine is exact; pairs whose "
@@ -651,6 +792,9 @@ def run(out, tier, scratch):
         "snap_affine / is_affine_st are not modelled: the linear-path theorems hold for every scale+translation affine that "
         "_check_linear may return; the distance between the snapped and the true map is a hypothesis (delta) of the tolerance theorem",
         "VariableSizedTiles offsets are int32 in numpy: totals below 2^31",
+        "predicate crossref (testing of the oracle composition): reference = tile footprints from the affines, densified, moved to "
+        "lon/lat with pyproj and intersected with shapely; required: no exception and every pair overlapping by more than 4 pixels of "
+        "the finer grid is listed; misses explained by the open finding key c12:crossref-chord are reported under that key",
     ]
     cases = gen_cases(out, tier)
     import time as _t
